@@ -21,8 +21,9 @@ The block a rule object is created with (by its constructor or by the parser) is
 rule and holds one property (every text / constructor call of the harness gives a rule exactly one declaration)
 whose name is outside the pool of names the operations use (rendered as the empty name; an operation with the empty
 name is not an operation of the model). That a fresh rule comes with such a block is checked by the correspondence
-on every dump, not proved. Operations on the sheet (`Op`) do not touch blocks or properties: a rule object that is
-moved, removed or refused keeps its block.
+on every dump, not proved. Operations on the sheet (`Op`) do not touch blocks or properties — a rule object that is
+moved, removed or refused keeps its block — with one exception: an accepted `page.cssText = …` replaces the block of
+the @page rule (`csspagerule.py:357-360`).
 -/
 namespace CssVerif.SheetEdit
 open CssVerif.Proto (Cps)
@@ -187,7 +188,18 @@ inductive DOp where
   | removeProp (path : List Nat) (name : Cps)
 
 def dstep (ds : DSt) : DOp → DSt × Outcome
-  | .sheet op => let r := step ds.st op; ({ ds with st := r.1 }, r.2)
+  | .sheet op =>
+    let r := step ds.st op
+    match op with
+    | .nSetText path _ =>
+      -- an accepted `page.cssText = …` also gives the @page rule a new block object (`self.style = newStyle`,
+      -- `csspagerule.py:357-360`), with the one declaration every generated @page text has
+      match atPath ds.st.rules path with
+      | some c =>
+        if c.kind = .page && r.2 == .none then (newStyleAt { ds with st := r.1 } c.id [[]], r.2)
+        else ({ ds with st := r.1 }, r.2)
+      | none => ({ ds with st := r.1 }, r.2)
+    | _ => ({ ds with st := r.1 }, r.2)
   | .newStyle path items _ =>
     match styledAt ds.st path with
     | none => (ds, .badOp)
